@@ -95,7 +95,8 @@ def truth(v: Val):
         return z3.And(z3.Not(v.sort.is_none(v.t)), truth(inner))
     if isinstance(v, VUnion):
         tg = PyU.tag(v.t)
-        return z3.If(tg == 1, z3.Length(PyU.s(v.t)) > 0, z3.If(tg == 2, PyU.i(v.t) != 0, z3.If(tg == 3, PyU.b(v.t), tg == 4)))
+        return z3.If(tg == 1, z3.Length(PyU.s(v.t)) > 0, z3.If(tg == 2, PyU.i(v.t) != 0, z3.If(tg == 3, PyU.b(v.t),
+                     z3.If(tg == 5, TList(Str).len(PyU.l(v.t)) > 0, tg == 4))))
     if isinstance(v, VRec) and v.sort.nm == "PyVal":
         k = v.sort.get(v.t, "kind")
         return z3.If(k == 1, z3.Length(v.sort.get(v.t, "s")) > 0,
@@ -200,8 +201,11 @@ def coerce(v: Val, s: Sort) -> Val:
             return VUnion(s.mk(2, i=v.t))
         if isinstance(v, VRef):
             return VUnion(s.mk(4, r=v.t), ref_cls=v.cls)
-    if isinstance(v, VUnion) and getattr(v, "_narrowed", None) is not None:
-        return coerce(v._narrowed, s)
+        if isinstance(v, (VList, VTuple)):
+            try:
+                return VUnion(s.mk(5, l=coerce(v, TList(Str)).t))
+            except Unsupported:
+                pass
     if isinstance(s, TFuncS):
         if isinstance(v, VFuncRef):
             return v
